@@ -17,13 +17,26 @@ def extract(tree):
     if not m:
         raise ExtractError("janet_env_valid: outer `if (env->offset < 0) {...} else { return 1; }` not recognised: %s" % body[:200])
     inner = m.group(1)
-    m = re.fullmatch(r"int32_t real_offset = -\(env->offset\); JanetFiber \*fiber = env->as\.fiber; int32_t i = fiber->frame; "
-                     r"while \(i > 0\) \{ JanetStackFrame \*frame = \(JanetStackFrame \*\)\(fiber->data \+ i - JANET_FRAME_SIZE\); "
-                     r"if \((.*?)\) \{ env->offset = real_offset; return 1; \} i = frame->prevframe; \} (.*)", inner)
+    # local names are free (captured and referred back to): real offset, fiber, index, frame pointer
+    m = re.fullmatch(r"int32_t (?P<ro>\w+) = -\(?env->offset\)?; JanetFiber \*(?P<fb>\w+) = env->as\.fiber; int32_t (?P<i>\w+) = (?P=fb)->frame; "
+                     r"while \((?P=i) > 0\) \{ JanetStackFrame \*(?P<fr>\w+) = \(JanetStackFrame \*\) ?\((?P=fb)->data \+ (?P=i) - JANET_FRAME_SIZE\); "
+                     r"if \((?P<cond>.*?)\) \{ env->offset = (?P=ro); return 1; \} (?P=i) = (?P=fr)->prevframe; \} (?P<tail>.*)", inner)
     if not m:
         raise ExtractError("janet_env_valid: frame walk not recognised: %s" % inner[:300])
     out["startsAtFrame"] = True
-    conj = [c.strip() for c in m.group(1).split("&&")]
+    names = {m.group("ro"): "real_offset", m.group("i"): "i", m.group("fr"): "frame", m.group("fb"): "fiber"}
+    if len(names) != 4 or "env" in names:
+        raise ExtractError("janet_env_valid: local names clash")
+
+    def canon(c):
+        c = re.sub(r"\b(\w+)\b", lambda mm: names.get(mm.group(1), mm.group(1)), c.strip())
+        c = re.sub(r"^\((.*)\)$", r"\1", c).strip()
+        c = re.sub(r"^(frame->func) != NULL$", r"\1", c)
+        mm = re.fullmatch(r"(\S+) == (\S+)", c)
+        if mm and mm.group(1) in ("i", "env", "env->length"):       # `a == b` written the other way round
+            c = "%s == %s" % (mm.group(2), mm.group(1))
+        return c
+    conj = [canon(c) for c in m.group("cond").split("&&")]
     known = {"real_offset == i": "offsetEq", "frame->env == env": "envPtrEq", "frame->func": "funcNonNull",
              "frame->func->def->slotcount == env->length": "slotcountEq"}
     for k in known.values():
@@ -35,7 +48,7 @@ def extract(tree):
     # the slot-count test dereferences frame->func: it must come after the NULL test
     if out["slotcountEq"] and out["funcNonNull"] and conj.index("frame->func") > conj.index("frame->func->def->slotcount == env->length"):
         raise ExtractError("janet_env_valid: frame->func is dereferenced before it is tested")
-    tail = m.group(2).strip()
+    tail = m.group("tail").strip()
     out["resetsOnFailure"] = bool(re.fullmatch(r"env->offset = 0; env->length = 0; env->as\.values = NULL; return 0;", tail))
     if not out["resetsOnFailure"] and tail != "return 0;":
         raise ExtractError("janet_env_valid: failure path not recognised: %s" % tail)
